@@ -379,6 +379,83 @@ func (e *Exec) monitorValidated(j *Judgement, events []*world.Event) {
 	}
 }
 
+
+// monitorPush: what a proposal sends to the device is the change its request named for that target - the same
+// updates with the same values, and deletes of the named paths (plus, possibly, of paths beneath them: the cascade) -
+// whatever later transactions do to the device afterwards (the end-state comparison cannot see a wrong push that a
+// later one repairs). Rollbacks are judged by the end state only.
+func (e *Exec) monitorPush(j *Judgement, events []*world.Event) {
+	props := []string{"C04", "C16", "C17"}
+	for _, ev := range events {
+		if ev.Kind != "dev.Set" || ev.Dev == nil || ev.Dev.Outcome == "offline" {
+			continue
+		}
+		t, idx, ok := proposalIndexOf(ev.Task)
+		if !ok {
+			continue
+		}
+		c := j.CallOf[idx]
+		if c == nil || c.Kind != "set" {
+			continue
+		}
+		wantUp := map[string]refmodel.Val{}
+		var wantDel []refmodel.Path
+		for _, o := range c.Ops {
+			if o.Target != t {
+				continue
+			}
+			p := o.P
+			if n := e.W.Schema.NodeOf(p); o.Del && n != nil && n.IsKeyLeaf() {
+				p = p.Parent() // a key-leaf delete addresses its entry
+			}
+			if o.Del {
+				wantDel = append(wantDel, p)
+			} else {
+				wantUp[p.String()] = o.V
+			}
+		}
+		e.C.Count("proposal_pushes_compared_with_request", 1)
+		gotUp := map[string]bool{}
+		for _, o := range ev.Dev.Ops {
+			ps := o.P.String()
+			if !o.Del {
+				gotUp[ps] = true
+				if w, ok := wantUp[ps]; !ok {
+					j.add("push", props, "push/update-not-in-request", "target %s: %s sent an update of %s, which transaction %d does not contain", t, ev.Task, ps, idx)
+				} else if w != o.V {
+					j.add("push", props, "push/update-with-another-value", "target %s: %s sent %s = %s, transaction %d says %s", t, ev.Task, ps, o.V.Pretty(), idx, w.Pretty())
+				}
+				continue
+			}
+			covered := false
+			for _, d := range wantDel {
+				if o.P.Under(d) {
+					covered = true
+				}
+			}
+			if !covered {
+				j.add("push", props, "push/delete-not-in-request", "target %s: %s sent a delete of %s, which is neither named by transaction %d nor beneath a path it deletes", t, ev.Task, ps, idx)
+			}
+		}
+		for ps := range wantUp {
+			if !gotUp[ps] {
+				j.add("push", props, "push/update-missing", "target %s: %s did not send the update of %s that transaction %d contains", t, ev.Task, ps, idx)
+			}
+		}
+		for _, d := range wantDel {
+			covered := false
+			for _, o := range ev.Dev.Ops {
+				if o.Del && d.Under(o.P) {
+					covered = true
+				}
+			}
+			if !covered {
+				j.add("push", props, "push/delete-missing", "target %s: %s did not send the delete of %s that transaction %d contains", t, ev.Task, d, idx)
+			}
+		}
+	}
+}
+
 // monitorMaster: C10 – terms, master changes, election ids and the re-synchronisation gate
 func (e *Exec) monitorMaster(j *Judgement, events []*world.Event) {
 	props := []string{"C10"}
